@@ -66,8 +66,7 @@ theorem stored_cast (w : Nat) (v : Int) : (stored w v : Int) = v % 2 ^ w := by
   exact Int.toNat_of_nonneg (Int.emod_nonneg _ (Int.ne_of_gt (two_pow_pos_int w)))
 
 /-- the word after an accepted write -/
-def written (size bv b w x : Nat) : Nat :=
-  (bv &&& (((1 <<< size) - 1) ^^^ (((1 <<< w) - 1) <<< b))) ||| (x <<< b)
+abbrev written (size bv b w x : Nat) : Nat := writeBits size bv b w x
 
 /-- EXACT acceptance region of `Token.__setitem__`: a `w`-bit slice accepts precisely `[-2^w, 2^w)`,
     and stores `v mod 2^w`. -/
@@ -89,12 +88,12 @@ theorem setSlice_accept (size bv b e : Nat) (v : Int) (h : b < e)
       have : (v + 2 ^ (e - b)) % 2 ^ (e - b) = v + 2 ^ (e - b) := Int.emod_eq_of_lt (by omega) (by omega)
       rw [Int.add_emod_right] at this
       omega
-    simp [written, stored, this, Nat.one_shiftLeft]
+    simp [written, writeBits, stored, this, Nat.one_shiftLeft]
   · simp only [hneg, if_false]
     have c2 : ¬ ¬ (v ≥ 0 ∧ v < 2 ^ (e - b)) := by omega
     simp only [c2, if_false]
     have : v = v % 2 ^ (e - b) := (Int.emod_eq_of_lt (by omega) hhi).symm
-    simp only [written, stored, Nat.one_shiftLeft]
+    simp only [written, writeBits, stored, Nat.one_shiftLeft]
     rw [← this]
 
 theorem setSlice_reject_hi (size bv b e : Nat) (v : Int) (h : b < e) (hhi : 2 ^ (e - b) ≤ v) :
@@ -132,7 +131,7 @@ theorem setSlice_ok_iff (size bv b e : Nat) (v : Int) (h : b < e) :
 /-- bits of the written word, inside the slice -/
 theorem written_testBit_in {size bv b w x i : Nat} (hb : b ≤ i) (hi : i < b + w) (hs : b + w ≤ size) :
     (written size bv b w x).testBit i = x.testBit (i - b) := by
-  unfold written
+  unfold written writeBits
   simp only [Nat.one_shiftLeft, Nat.testBit_or, Nat.testBit_and, Nat.testBit_xor, Nat.testBit_shiftLeft,
     Nat.testBit_two_pow_sub_one]
   have h1 : i < size := by omega
@@ -142,7 +141,7 @@ theorem written_testBit_in {size bv b w x i : Nat} (hb : b ≤ i) (hi : i < b + 
 /-- bits of the written word, outside the slice (stray bits at or above `size` are cleared) -/
 theorem written_testBit_out {size bv b w x i : Nat} (hx : x < 2 ^ w) (ho : ¬ (b ≤ i ∧ i < b + w)) :
     (written size bv b w x).testBit i = (bv.testBit i && decide (i < size)) := by
-  unfold written
+  unfold written writeBits
   simp only [Nat.one_shiftLeft, Nat.testBit_or, Nat.testBit_and, Nat.testBit_xor, Nat.testBit_shiftLeft,
     Nat.testBit_two_pow_sub_one]
   by_cases hb : b ≤ i
